@@ -16,11 +16,14 @@ SCHEMA = {
     "f": [("g", "i", True), ("x", "f", True), ("y", "f", True)],
     "k": [("k", "i", True), ("z", "f", True)],
     "q": [("j1", "f", True), ("j2", "f", True), ("z", "f", True)],
+    # a right-hand table whose key is called k and which ALSO has an ordinary column named like the left key (g): self-join style schemas
+    "s": [("k", "i", True), ("g", "i", True), ("z", "f", True)],
 }
 D = "TableDescription(table_name='d', column_names=['g', 'x', 'y'])"
 E = "TableDescription(table_name='e', column_names=['g', 'z'])"
 F = "TableDescription(table_name='f', column_names=['g', 'x', 'y'])"
 K = "TableDescription(table_name='k', column_names=['k', 'z'])"
+S = "TableDescription(table_name='s', column_names=['k', 'g', 'z'])"
 
 # (name, suffix, kind)
 STEPS = [
@@ -56,6 +59,7 @@ STEPS = [
     ("cols_dropx", ".drop_columns(['x'])", "drop_columns"),
     ("cols_ren", ".rename_columns({'x2': 'x'})", "rename_columns"),
     ("cols_swap", ".map_columns({'x': 'y', 'y': 'x'})", "map_columns"),
+    ("cols_mapdel", ".map_columns({'x': 'x2', 'y': None})", "map_columns"),  # a rename plus a deletion in one step
     ("ord_x", ".order_rows(['x'])", "order_rows"),
     ("ord_lim", ".order_rows(['g', 'x'], reverse=['x'], limit=2)", "order_rows"),
     ("ord_biglim", ".order_rows(['x'], limit=7)", "order_rows"),
@@ -66,8 +70,12 @@ STEPS = [
     ("join_cross", f".natural_join(b={E}.rename_columns({{'g2': 'g'}}), on=[], jointype='cross')", "natural_join"),
     ("join_diffkey", f".natural_join(b={K}, on=[('g', 'k')], jointype='left')", "natural_join"),
     ("join_shared", f".natural_join(b={F}.rename_columns({{'z': 'y'}}), on=['g'], jointype='left')", "natural_join"),
+    ("join_diffkey_shadow", f".natural_join(b={S}, on=[('g', 'k')], jointype='left')", "natural_join"),
     ("cat", f".concat_rows(b={F})", "concat_rows"),
     ("cat_id", f".concat_rows(b={F}, id_column='src')", "concat_rows"),
+    # without an id column the two branches are written into the UNION ALL as they are (no wrapping extend)
+    ("cat_noid", f".concat_rows(b={F}, id_column=None)", "concat_rows"),
+    ("cat_noid_lim", f".concat_rows(b={F}.order_rows(['x'], limit=1), id_column=None)", "concat_rows"),
     # record transform (cdata): one (k, v) block row per value column; in SQL a CROSS JOIN with the inlined control table
     ("rec_unpivot", ".convert_records(RecordMap(blocks_out=RecordSpecification(pd.DataFrame({'k': ['a', 'b'], 'v': ['x', 'y']}), "
                     "record_keys=['g'], control_table_keys=['k'])))", "convert_records"),
